@@ -2,6 +2,7 @@
 (for the cvc5 / z3 CLI cross-check), path controller (decisions on symbolic branches by
 re-execution with a recorded decision prefix), and the obligation log.
 """
+import math
 import os
 import subprocess
 import sys
@@ -1029,7 +1030,81 @@ def prove(z, pc_nodes, claim, timeout_ms=60000, name='', want_model=True):
         return 'proved', None
     if r == z3.sat:
         return 'violated', _model_of(s)
+    # undecided by the solver: look for a refutation by evaluating the encoding at sampled points (three-valued evaluation with a
+    # tolerance, so a rounding residue of an identity is never taken for a counterexample). A hit is a candidate like any solver
+    # model: the checks replay it against the native build before reporting anything.
+    m = numeric_refute(list(pc_nodes), claim)
+    if m is not None:
+        return 'violated', m
     return 'unknown', None
+
+class _Unsure(Exception):
+    pass
+
+def _tri(n, env, cache, ufs=None):
+    """three-valued truth of a boolean node at env (floats): True / False, raises _Unsure when within tolerance"""
+    op = n.op
+    if op == 'true': return True
+    if op == 'false': return False
+    if op == 'not': return not _tri(n.args[0], env, cache, ufs)
+    if op == 'and': return _tri(n.args[0], env, cache, ufs) and _tri(n.args[1], env, cache, ufs)
+    if op == 'or':
+        # or: sure-true if one side is surely true
+        vals = []
+        for a in n.args:
+            try: vals.append(_tri(a, env, cache, ufs))
+            except _Unsure: vals.append(None)
+        if any(v is True for v in vals): return True
+        if all(v is False for v in vals): return False
+        raise _Unsure()
+    if op in ('lt', 'le', 'gt', 'ge', 'eq', 'ne'):
+        a = S.evaluate(n.args[0], env, ufs, cache); b = S.evaluate(n.args[1], env, ufs, cache)
+        if isinstance(a, bool) or isinstance(b, bool): raise _Unsure()
+        a = float(a); b = float(b)
+        if a != a or b != b or abs(a) == float('inf') or abs(b) == float('inf'): raise _Unsure()
+        tol = 1e-7 * (1.0 + abs(a) + abs(b))
+        d = a - b
+        if abs(d) <= tol: raise _Unsure()
+        return {'lt': d < 0, 'le': d < 0, 'gt': d > 0, 'ge': d > 0, 'eq': False, 'ne': True}[op]
+    if op == 'xor':
+        return _tri(n.args[0], env, cache, ufs) != _tri(n.args[1], env, cache, ufs)
+    if op in ('bvar',): return bool(env[n.args[0]])
+    raise _Unsure()
+
+def numeric_refute(pc_nodes, claim, tries=1500, seed=12345, budget_s=6.0):
+    import random
+    rnd = random.Random(seed)
+    t_end = time.time() + budget_s
+    names = set()
+    kinds = {}
+    for n in pc_nodes + [claim]:
+        stack = [n]; seen = set()
+        while stack:
+            x = stack.pop()
+            if type(x) is not S.Node or x.id in seen: continue
+            seen.add(x.id)
+            if x.op in ('var', 'ivar', 'bvar'): kinds[x.args[0]] = (x.op, getattr(x, 'lo', None), getattr(x, 'hi', None))
+            stack.extend(a for a in x.args if type(a) is S.Node)
+    if not kinds or len(kinds) > 80: return None
+    ufs = {'cbrt': lambda v: math.copysign(abs(v) ** (1.0 / 3.0), v)}
+    for t in range(tries):
+        if time.time() > t_end: break
+        scale = rnd.choice([0.5, 1.0, 2.0, 5.0])
+        env = {}
+        for nm, (op, lo, hi) in kinds.items():
+            if op == 'var': env[nm] = rnd.uniform(-scale, scale) if rnd.random() < 0.8 else rnd.uniform(0, scale)
+            elif op == 'ivar':
+                lo_ = 0 if lo is None else lo; hi_ = lo_ + 16 if hi is None else min(hi, lo_ + 64)
+                env[nm] = rnd.randint(lo_, hi_)
+            else: env[nm] = rnd.random() < 0.5
+        cache = {}
+        try:
+            if not all(_tri(c, env, cache, ufs) for c in pc_nodes): continue
+            if _tri(claim, env, cache, ufs) is False:
+                return {k: (Fraction(v).limit_denominator(10 ** 9) if isinstance(v, float) else v) for k, v in env.items()}
+        except (_Unsure, ZeroDivisionError, ValueError, OverflowError, KeyError, TypeError, AttributeError, RecursionError):
+            continue
+    return None
 
 def satisfiable(z, nodes, timeout_ms=30000):
     s = z3.Solver()
